@@ -1247,6 +1247,32 @@ def rule_exact_collapse(rep: Report, ix: Index) -> None:
     rep.note(f"exact-collapse rule: {n} reader branches that drop identity leaves were judged")
 
 
+
+def rule_collection_copy_labels(rep: Report, ix: Index) -> None:
+    """the read path of storages and every `copy()` go through FieldCollection.copy: its `label` argument names the
+    *collection*; member fields are copied with their own labels (`f.copy()`), otherwise a labelled collection comes back with
+    every member carrying the collection's label and by-name access (`extract_field('c')`) fails"""
+    f = ix.func("pde/fields/collection.py", "FieldCollection.copy")
+    rep.saw("functions", f.ref)
+    params = {a.arg for a in f.node.args.args + f.node.args.kwonlyargs}
+    calls = [c for c in ast.walk(f.node) if isinstance(c, ast.Call) and isinstance(c.func, ast.Attribute) and c.func.attr == "copy" and isinstance(c.func.value, ast.Name) and c.func.value.id not in ("self",)]
+    if not calls:
+        raise AnalysisError(f"{f.ref}: member copies not found")
+    bad = []
+    for c in calls:
+        for k in c.keywords:
+            if k.arg == "label" and any(isinstance(x, ast.Name) and x.id in params for x in ast.walk(k.value)):
+                bad.append(ast.unparse(c))
+    rep.oblige("FieldCollection.copy: members are copied with their own labels", not bad, bad)
+    for b in bad[:1]:
+        rep.violation(
+            "C14.member-labels",
+            f"{f.ref}::member-copy",
+            f"`{b}` hands the collection's `label` argument to the member copies: copying (and reading back from a storage) a collection that has a label of its own gives every member that label",
+            line=f.node.lineno,
+        )
+
+
 def check(tier: str) -> Report:
     rep = Report("C14", tier, "other", "static: constructor may-dataflow vs state readers, key-table equality, dim/num_axes typing of component counts, symbolic slice recurrence")
     rep.explanation = (
@@ -1267,6 +1293,7 @@ def check(tier: str) -> Report:
     rule_storage(rep, ix, tables)
     rule_component_counts(rep, ix)
     rule_collection_slices(rep, ix)
+    rule_collection_copy_labels(rep, ix)
     rep.assumptions += [
         "JSON float round-trip exactness is not decided",
         "a property setter/getter pair is coherent (the getter returns what the setter was given)",
